@@ -66,10 +66,10 @@ RESULTS = {
               ("missed", "ArchiveWriter state handling needs HashMap::new()/RandomState: harness h_lib_writer_refused did not finish; API level is outside the claim")),
     "C10-A": ("C10", "compression seek forward-skip shortcut computes the current block from underlayer_pos instead of the decompressor's block",
               "block consumed to its last byte, file abandoned, seek into the next block",
-              None),
+              ("detected", "C10", ["h_cmp_seek_start"], "after reading block 0 to its last byte, seek(Start) then read failed: WrongReaderState(Too much data read)")),
     "C10-B": ("C10", "encryption seek 'chunk already cached' shortcut identifies the cached chunk from the position instead of current_chunk_number",
               "read stopping on a chunk end, file abandoned, open a file in the next chunk",
-              None),
+              ("detected", "C10", ["h_enc_seek_start", "h_enc_seek_end", "h_enc_seek_current"], "stream_position() after seek(Start(524256)) = 393184")),
     "C11-A": ("C11", "seek(Start) of the encryption reader treats load_in_cache() == None as EndOfStream",
               "plaintext length a non-zero multiple of 128 KiB and a seek target of exactly len",
               ("detected", "C11", ["h_enc_seek_end", "h_enc_seek_start"], "seek to the end fails with EndOfStream")),
@@ -84,10 +84,10 @@ RESULTS = {
               ("detected", "C13", ["h_enc_load_auth_refines_short"], "inner stream at 7, expected 10")),
     "C14-A": ("C14", "compression writer skips the brotli flush when the block holds exactly 4 MiB",
               "flush with an exact multiple of 4 MiB in the compression layer, then cut",
-              None),
+              ("missed", "CompressionLayerWriter::flush is outside the claim (writer harness did not finish, DESIGN §13.3); first evaluation was a BUILD_ERROR because the brotli model lacked get_mut (added)")),
     "C14-B": ("C14", "load_in_cache_unauthenticated reads the tag with read_exact when the chunk is full: a stream ending right after a full chunk loses it",
               "flush + cut with an exact multiple of 128 KiB in the encryption layer, unauthenticated repair",
-              None),
+              ("detected", "C14", ["h_enc_load_unauth_refines", "h_enc_load_unauth_refines_short"], "unauthenticated load failed: UnexpectedEof (failed to fill whole buffer)")),
     "C20-A": ("C20", "CallbackOutput::write returns the offered length instead of the count the callback accepted",
               "write callback accepting only part of the buffer",
               ("detected", "C20", ["h_c_adapter"], "callback (status 0, accepted 0) -> write returned Ok(6)")),
